@@ -202,7 +202,7 @@ def systematic_cases(tier):
         ents = entries_for(fmt)
         for si, data in enumerate(S[fmt]):
             n = len(data)
-            if quick and si >= 2:
+            if quick and si >= 2 and not (fmt in ("dxf", "glb") and si >= len(S[fmt]) - 3):
                 continue
             k = 0
 
@@ -287,12 +287,29 @@ def systematic_cases(tier):
                         yield mk(["zip_member", j, ["byte", i, 0x39]])
                     for i in range(0, 8 if quick else 60):
                         yield mk(["zip_member", j, ["line_digit", i, 4294967295]])
+            # the JSON document inside a GLB container, re-framed after the fault
+            if data[:4] == b"glTF" and n >= 20:
+                import struct as _struct
+
+                jl = _struct.unpack("<I", data[12:16])[0]
+                js = data[20 : 20 + jl]
+                jruns = len(_re.findall(rb"\d+", js))
+                for i in range(0, jruns, max(1, jruns // (120 if quick else 100000))):
+                    for v in ((100000, 4294967295) if quick else (100000, 4294967295, 0, -7, 16200000)):
+                        yield mk(["glb_json", ["line_digit", i, v]])
+                jtok = len(_re.findall(rb"(?<![\d.\-+eE])\d(?![\d.eE])", js))
+                for t in range(0, jtok, max(1, jtok // (60 if quick else 100000))):
+                    for d in (1, -1):
+                        yield mk(["glb_json", ["small_int", t, d]])
+                for i in range(0, len(js), max(1, len(js) // (10 if quick else 200))):
+                    yield mk(["glb_json", ["truncate", i]])
+                    yield mk(["glb_json", ["delete", i, 8]])
             # ascii integers
             for i in range(0, 16 if quick else 200):
                 for v in ((0, 4294967295, -7) if quick else (0, 4294967295, 10**12, -7, 99999999)):
                     yield mk(["line_digit", i, v])
             # ... and numbers anywhere in a text document (radii, angles, counts deep inside the file), spread evenly
-            nruns = len(_re.findall(rb"\d+", data)) if data[:2] != b"PK" and not data[:4] == b"glTF" else 0
+            nruns = len(_re.findall(rb"\d+", data)) if data[:2] != b"PK" else 0
             for i in range(16, nruns, max(1, nruns // (80 if quick else 2000))):
                 for v in ((100000, 4294967295) if quick else (100000, 4294967295, 0, -7)):
                     yield mk(["line_digit", i, v])
@@ -413,4 +430,4 @@ def s_random(ctx):
         _WORKER.kill()
 
 
-REQUIRED_CLASSES["C20"] = ["fmt:stl", "fmt:ply", "fmt:glb", "fmt:obj", "fmt:3mf", "fmt:dxf", "fmt:svg", "fault:truncate", "fault:word", "fault:line_digit", "fault:multi", "fault:small_int", "fault:zip_member", "scaling:off", "scaling:glb"]
+REQUIRED_CLASSES["C20"] = ["fmt:stl", "fmt:ply", "fmt:glb", "fmt:obj", "fmt:3mf", "fmt:dxf", "fmt:svg", "fault:truncate", "fault:word", "fault:line_digit", "fault:multi", "fault:small_int", "fault:zip_member", "fault:glb_json", "scaling:off", "scaling:glb"]
